@@ -123,3 +123,55 @@ Proof.
   destruct B as [[B _]|[B _]]; [left|right]; exact B.
 Qed.
 Print Assumptions C11_rk4_fixed_step.
+
+(* ---------------- RK23, Radau, BDF: the step budget (proofs/{Rk23,Radau,Bdf}Budget.v) ----------------
+   For any number type, kernel / right-hand side / Jacobian / mass matrix and callback, started below the budget
+   (solve starts at 0): the reported nstep never exceeds max_steps + 1, NeedLargerNMax is reported only when the budget
+   is used up, and an iteration below two budgets is literally the same computation under both. *)
+Local Close Scope R_scope.
+Require IVP.model.Rk23 IVP.model.Radau IVP.model.Bdf IVP.proofs.Rk23Budget IVP.proofs.RadauBudget IVP.proofs.BdfBudget.
+
+Theorem C11_rk23_budget :
+  forall (F : Type) (O : Ops F) (H : Type) (P : Rk23.params) f xend posneg hmax kern
+         (cb : H -> F -> F -> list F -> option (list F * F * F) -> H * flag F * list F),
+    (forall fuel s r, (nstep (Rk23.s_stats s) <= Rk23.p_max_steps P)%N ->
+       Rk23.loop O P f xend posneg hmax cb kern fuel s = Some r ->
+       (nstep (Rk23.r_stats r) <= Rk23.p_max_steps P + 1)%N /\
+       (Rk23.r_status r = NeedLargerNMax -> (Rk23.p_max_steps P <= nstep (Rk23.r_stats r) + 0)%N)) /\
+    (forall n1 n2 s, (nstep (Rk23.s_stats s) + 0 < n1)%N -> (nstep (Rk23.s_stats s) + 0 < n2)%N ->
+       Rk23.step O (Rk23Budget.with_budget P n1) f xend posneg hmax cb kern s =
+       Rk23.step O (Rk23Budget.with_budget P n2) f xend posneg hmax cb kern s).
+Proof.
+  intros. split; [intros; eapply Rk23Budget.loop_budget; eauto | intros; now apply Rk23Budget.step_budget_prefix].
+Qed.
+Print Assumptions C11_rk23_budget.
+
+Theorem C11_radau_budget :
+  forall (F : Type) (O : Ops F) (H : Type) (P : Radau.params) n f jacf mass atolv rtolv newton_tol xend posneg hmax hmin
+         (cb : H -> F -> F -> list F -> option (list F * F * F) -> H * flag F * list F),
+    (forall fuel s r, (nstep (Radau.s_stats _ s) <= Radau.p_max_steps P)%N ->
+       Radau.loop O P n f jacf mass atolv rtolv newton_tol xend posneg hmax hmin cb fuel s = Some r ->
+       (nstep (Radau.r_stats r) <= Radau.p_max_steps P + 1)%N /\
+       (Radau.r_status r = NeedLargerNMax -> (Radau.p_max_steps P <= nstep (Radau.r_stats r) + 1)%N)) /\
+    (forall n1 n2 s, (nstep (Radau.s_stats _ s) + 1 < n1)%N -> (nstep (Radau.s_stats _ s) + 1 < n2)%N ->
+       Radau.step O (RadauBudget.with_budget P n1) n f jacf mass atolv rtolv newton_tol xend posneg hmax hmin cb s =
+       Radau.step O (RadauBudget.with_budget P n2) n f jacf mass atolv rtolv newton_tol xend posneg hmax hmin cb s).
+Proof.
+  intros. split; [intros; eapply RadauBudget.loop_budget; eauto | intros; now apply RadauBudget.step_budget_prefix].
+Qed.
+Print Assumptions C11_radau_budget.
+
+Theorem C11_bdf_budget :
+  forall (F : Type) (O : Ops F) (H : Type) (P : Bdf.params) n f jacf atolv rtolv newton_tol maxiter xend direction hmax hmin
+         (cb : H -> F -> F -> list F -> option (list F * F * F) -> H * flag F * list F),
+    (forall fuel s r, (nstep (Bdf.s_stats _ s) <= Bdf.p_max_steps P)%N ->
+       Bdf.loop O P n f jacf atolv rtolv newton_tol maxiter xend direction hmax hmin cb fuel s = Some r ->
+       (nstep (Bdf.r_stats r) <= Bdf.p_max_steps P + 1)%N /\
+       (Bdf.r_status r = NeedLargerNMax -> (Bdf.p_max_steps P <= nstep (Bdf.r_stats r) + 0)%N)) /\
+    (forall n1 n2 s, (nstep (Bdf.s_stats _ s) + 0 < n1)%N -> (nstep (Bdf.s_stats _ s) + 0 < n2)%N ->
+       Bdf.step O (BdfBudget.with_budget P n1) n f jacf atolv rtolv newton_tol maxiter xend direction hmax hmin cb s =
+       Bdf.step O (BdfBudget.with_budget P n2) n f jacf atolv rtolv newton_tol maxiter xend direction hmax hmin cb s).
+Proof.
+  intros. split; [intros; eapply BdfBudget.loop_budget; eauto | intros; now apply BdfBudget.step_budget_prefix].
+Qed.
+Print Assumptions C11_bdf_budget.
